@@ -12,7 +12,7 @@ COMMON_TB = [
 ]
 
 NOT_YET = {}
-IN_PROGRESS = {"C17"}
+IN_PROGRESS = set()
 
 PROPS = {
     "C20": {
@@ -339,9 +339,9 @@ PROPS = {
                       "requests built by the real RequestBuilder and StandardCupv2Handler, the real handle_request under catch_unwind, and every reply pushed through the real verify_response and "
                       "parse_json_response and offered to every other exchange of the history; the real state machine (oneshot_check) is driven against the in-process server for every configured kind, "
                       "with and without CUP, and with a forced ETag.",
-        "level_note": "Proved for the model, unbounded.  Model = code is sampled.  The model is the repaired make_etag: on the pinned tree the code panics on the class d5_class (service URL with a path and no cup2key, "
-                      "or any query parameter before cup2key - which is every decorated service URL with a query, because the client appends); such inputs are reported with code 5 until lib.rs is repaired "
-                      "(VERIF_C17_SKIP_D5=1 keeps the generator away from the class).  Key ids are pairwise distinct in the generator (DESIGN.md section 6).  Not modelled: the f64 overflow check of float literals "
+        "level_note": "Proved for the model, unbounded.  Model = code is sampled.  The model is make_etag as repaired by /repo commit a35419c (cup2key looked up by name): before it the code panicked on the class d5_class (service URL with a path and no cup2key, "
+                      "or any query parameter before cup2key - every decorated service URL with a query, because the client appends); a panic on such an input is reported with code 5.  "
+                      "Key ids are pairwise distinct in the generator (DESIGN.md section 6).  Not modelled: the f64 overflow check of float literals "
                       "in a request body (the client writes none), lossy UTF-8 decoding of percent-escapes above 0x7F in the query (not generated).  A ping-only request (no updatecheck, no event) makes the mock "
                       "panic by design (lib.rs:641) and is outside the theorem's hypothesis; the state machine sends such requests only while waiting for a reboot.",
         "diff_meaning": "code 1: the real server (or the real client on the server's reply) did something else than the models on this history: another body, status, ETag, Content-Length, a panic where the model "
